@@ -1,5 +1,6 @@
 """C10 Resource failures are reported to every live participant (S4U, real kernel, systematic fault enumeration)."""
 import os
+import re
 
 from verif import build, proc
 from verif.gen import faults as gen
@@ -70,6 +71,18 @@ def split_runs(out):
     return res
 
 
+def split_err(err):
+    """harness stderr -> {run id: text}"""
+    res, cur = {}, None
+    for line in err.splitlines():
+        if line.startswith("BEGIN "):
+            cur = line.split()[1]
+            res[cur] = []
+        elif cur is not None:
+            res[cur].append(line)
+    return dict((k, "\n".join(v)) for k, v in res.items())
+
+
 def run_batch(fl, sc, runs, timeout):
     exe = build.harness("faults.cpp", fl)
     return proc.run([exe] + exe_args(fl), stdin=gen.to_text(sc, runs), timeout=timeout, env={"FAULTS_CHILD_TIMEOUT": "150"})
@@ -89,12 +102,9 @@ def base_dates(sc, text):
 
 def crash_key(status, err):
     """Stable class of a crashed run: sanitizer error kind + first SimGrid frame, or the exit status."""
-    pid = status.split("pid=")[-1] if "pid=" in status else None
     lines = err.splitlines()
     for i, l in enumerate(lines):
         if "ERROR: AddressSanitizer" in l or "runtime error:" in l:
-            if pid and "==%s==" % pid not in l and "runtime error:" not in l:
-                continue
             kind = l.split("AddressSanitizer:")[1].split()[0] if "AddressSanitizer:" in l else "ubsan"
             frame = "?"
             for m in lines[i + 1:i + 40]:
@@ -103,6 +113,12 @@ def crash_key(status, err):
                     break
             return "C10:sanitizer:%s:%s" % (kind, frame), "\n".join(lines[i:i + 14])
     st = status.split()[0].replace("=", "")
+    for l in lines:
+        if "Assertion" in l and "failed" in l:
+            # xbt_assert: "... Assertion <cond> failed" -> the condition is the stable part
+            cond = l.split("Assertion", 1)[1].split("failed")[0].strip()
+            m = re.search(r"(\w+\.[ch]pp):\d+", l)
+            return "C10:abort:%s:%s" % (m.group(1) if m else "?", cond.replace(" ", "")), l.strip()[-400:]
     tail = [l for l in lines if l.strip()][-3:]
     return "C10:crash:%s" % st, " | ".join(tail)[-600:]
 
@@ -142,7 +158,7 @@ def judge_run(ctx, fl, sc, run, text, status, err):
     return False
 
 
-def process_scenario(ctx, i, sc, directed_runs=None):
+def process_scenario(ctx, i, sc, directed_runs=None, flavours=("hooks", "asan")):
     """Fault-free run, enumeration, fault runs on both flavours."""
     res = run_batch("hooks", sc, [{"id": "base", "path": "N", "faults": []}], timeout=300)
     if res.timed_out:
@@ -168,13 +184,14 @@ def process_scenario(ctx, i, sc, directed_runs=None):
         todo += gen.pair_faults(sc, dates, rng, ctx.size(12, 40))
     ctx.count("fault_points_enumerated", len(todo))
     ctx.maximum("event_dates_in_a_scenario", len(dates))
-    for fl in ("hooks", "asan"):
-        sub = todo if (fl == "hooks" or directed_runs is not None) else todo[::3]
+    for fl in flavours:
+        sub = todo if (fl == "hooks" or directed_runs is not None or isinstance(i, str)) else todo[::10]
         # one process per chunk so that a watchdog costs one chunk, not the scenario
         for c in range(0, len(sub), 150):
             chunk = sub[c:c + 150]
             r = run_batch(fl, sc, chunk, timeout=900)
             got = split_runs(r.out)
+            errs = split_err(r.err)
             if r.timed_out:
                 ctx.inconclusive("batch watchdog")
             for run in chunk:
@@ -183,7 +200,7 @@ def process_scenario(ctx, i, sc, directed_runs=None):
                         ctx.inconclusive("run missing from the batch output")
                     continue
                 text, status = got[run["id"]]
-                if judge_run(ctx, fl, sc, run, text, status, r.err):
+                if judge_run(ctx, fl, sc, run, text, status, errs.get(run["id"], "")):
                     ctx.nontrivial({"scenario": sc, "faults": run["faults"], "path": run["path"]})
 
 
@@ -193,11 +210,13 @@ def run(ctx):
         build.harness("faults.cpp", fl)
     scs = [gen.gen(ctx.sub_rng("scenario", i), small=(i % 2 == 0)) for i in range(n)]
     ctx.sample({"generated[0]": gen.to_text(scs[0], [])})
-    jobs = [("gen", i, sc, None) for i, sc in enumerate(scs)]
+    ctx.sample({"directed[%s]" % gen.DIRECTED[2][0]: gen.to_text(gen.DIRECTED[2][1], gen.DIRECTED[2][2])})
+    jobs = [("directed", name, sc, runs, fls) for name, sc, runs, fls in gen.DIRECTED]
+    jobs += [("gen", i, sc, None, ("hooks", "asan")) for i, sc in enumerate(scs)]
 
     def one(j):
-        kind, i, sc, dr = j
-        process_scenario(ctx, i, sc, dr)
+        kind, i, sc, dr, fls = j
+        process_scenario(ctx, i, sc, dr, fls)
     ctx.pmap(one, jobs)
 
 
@@ -207,4 +226,4 @@ def replay(ctx, w):
     text, status = got.get(w["run"]["id"], ("", "truncated"))
     print(text)
     print(res.err[-2000:])
-    judge_run(ctx, w["flavour"], w["scenario"], w["run"], text, status, res.err)
+    judge_run(ctx, w["flavour"], w["scenario"], w["run"], text, status, split_err(res.err).get(w["run"]["id"], res.err))
